@@ -262,7 +262,13 @@ def elementBits (c : Ctx) (i : Inst) (port : String) (path : List String) (w : N
     | _, some .noconn =>
       -- private to this one port (of every element); nothing else may refer to the port
       if (c.component (i.name, port)).length > 1 then throw "no-connect referenced elsewhere"
-      else pure ((List.range w).map (fun k => (⟨"n:" ++ i.name ++ "." ++ port, path, k⟩ : Atom)))
+      else
+        -- every element of an array or pair ends on a net of its own
+        let who := match elem with
+          | some (.inl k) => i.name ++ "_" ++ toString k
+          | some (.inr member) => i.name ++ "_" ++ member
+          | none => i.name
+        pure ((List.range w).map (fun k => (⟨"n:" ++ who ++ "." ++ port, path, k⟩ : Atom)))
     | some (.inr member), some cn =>
       if cn.bundleLike then bitsOf c (fuelFor c) cn (path ++ [member])
       else bitsOf c (fuelFor c) (.pref i.name port) path
